@@ -180,6 +180,17 @@ def _to_rle(v):
     return None
 
 
+class ArrV:
+    """an array/list of unknown numeric content, e.g. the Wang-Landau g and H vectors; element reads are function
+    atoms, element stores are recorded on the path (env key '@store:<name>')"""
+
+    def __init__(self, name):
+        self.name = name
+
+    def __repr__(self):
+        return "ArrV(%s)" % self.name
+
+
 class PaletteV:
     """an unknown mapping residue -> text (the colour palette)"""
 
@@ -288,6 +299,10 @@ class Evaluator:
         self.int_atoms = set()             # atoms known to be non-negative integers (parity analysis)
         self.universe = LETTERS            # characters an element of the sequence string may be
         self.model_ctors = False           # model ClassName(...) as an object value carrying its arguments
+        self.extern_calls = {}             # unparse(func) -> callable(node, [arg values]) for calls outside the package
+        self.skip_calls = set()            # method / function names whose call statements are ignored (logging)
+        self.arange_as_index = False       # np.arange(a, b) -> one generic index atom @k (range recorded in self.aranges)
+        self.aranges = []
         self.last_loop = None              # summary of the most recent element loop (raises per character)
         self.opaque_calls = {}             # FuncInfo.key -> atom name (do not inline)
         self.trace = []                    # loop summaries for evidence
@@ -505,6 +520,8 @@ class Evaluator:
         name = _callname(call)
         if name in ("warning_message", "status_message", "print", "print_progress", "running_dotdotdot"):
             return [p]
+        if (name in self.skip_calls) or (isinstance(fn, ast.Attribute) and fn.attr in self.skip_calls):
+            return [p]
         callee = self.prog.resolve_call(fr.f, call)
         if callee is not None and callee.name in ("warning_message", "status_message"):
             return [p]
@@ -540,6 +557,13 @@ class Evaluator:
                 env[key] = d
                 return
             raise Undecided("store into self.%s[...] not modelled" % target.value.attr, fr.f.loc(target))
+        if isinstance(target, ast.Subscript) and isinstance(target.value, ast.Name) \
+                and isinstance(env.get(target.value.id), ArrV):
+            arr = env[target.value.id]
+            idx = self.eval(target.slice, env, fr)
+            key = "@store:" + arr.name
+            env[key] = list(env.get(key, [])) + [(idx, val)]
+            return
         if isinstance(target, ast.Subscript) and isinstance(target.value, ast.Name):
             base = env.get(target.value.id)
             idx = self.eval(target.slice, env, fr)
@@ -1135,7 +1159,10 @@ class Evaluator:
                 return Rat.atom("F:" + node.attr)
             if base.cls == "SequenceParameters" and node.attr == "SeqObj":
                 return ObjV("Sequence")
-            raise Undecided("attribute %s of %s" % (node.attr, base.cls), fr.f.loc(node))
+            t = self.prog.attr_types.get((base.cls, node.attr))
+            if t:
+                return ObjV(t)
+            return Rat.atom("F:" + node.attr)
         if isinstance(base, IdxV) and node.attr == "size":
             return self.count_atom(base.mask, fr, node)
         raise Undecided("attribute access %s" % unparse(node)[:60], fr.f.loc(node))
@@ -1171,12 +1198,19 @@ class Evaluator:
                 if hi is None:
                     hi = Rat.atom("N")
                 return WinV(base, lo, hi)
+            if isinstance(base, ArrV):
+                return ("slice", base.name, lo, hi)
             if isinstance(base, (list, tuple, str)) and lo.is_const() and (hi is None or hi.is_const()):
                 a = int(lo.const_value())
                 b = None if hi is None else int(hi.const_value())
                 return base[a:b]
             raise Undecided("slice of %r" % (base,), fr.f.loc(node))
         idx = self.eval(sl, env, fr)
+        if isinstance(base, ArrV):
+            i = _as_rat(idx)
+            if i is None:
+                raise Undecided("index into %s" % base.name, fr.f.loc(node))
+            return fatom("el:" + base.name, i)
         if isinstance(base, PaletteV):
             if isinstance(idx, AStr):
                 return AStr("%s[%s]" % (base.name, idx.tag))
@@ -1387,6 +1421,9 @@ class Evaluator:
                 if fn.attr == "isspace" and isinstance(base, str):
                     return base.isspace()
                 raise Undecided("method %s on %r" % (fn.attr, base), fr.f.loc(node))
+        ext = self.extern_calls.get(unparse(fn))
+        if ext is not None:
+            return ext(node, [self.eval(a, env, fr) for a in args])
         callee = self.prog.resolve_call(fr.f, node, fr.types())
         if callee is None and isinstance(fn, ast.Attribute):
             # method on a modelled object value
@@ -1584,6 +1621,16 @@ class Evaluator:
             return WhereV(args[0])
         if attr == "append" and len(args) == 2 and isinstance(args[0], ListAcc):
             return ListAcc(args[0].items + [args[1]])
+        if attr == "arange" and self.arange_as_index:
+            rs = [_as_rat(a) for a in args]
+            if all(r is not None for r in rs) and len(rs) in (1, 2):
+                lo, hi = (Rat.const(0), rs[0]) if len(rs) == 1 else (rs[0], rs[1])
+                self.aranges.append((lo, hi))
+                return Rat.atom("@k")
+        if attr in ("argmin", "argmax", "mean", "log10") and len(args) == 1:
+            a = _as_rat(args[0])
+            if a is not None:
+                return fatom(attr, a)
         if attr == "arange":
             rs = [_as_rat(a) for a in args]
             if all(r is not None for r in rs) and len(rs) == 2:
